@@ -201,7 +201,14 @@ fn directed_expr(r: &mut Rng) -> String {
     let n = 2 + r.below(4);
     let elems: Vec<String> = (0..n).map(|_| heap_elem(r, 0)).collect();
     let list = format!("[{}]", elems.join(", "));
-    match r.below(20) {
+    match r.below(26) {
+        // expressions that bind names inside function bodies: nothing of that may survive the call
+        20 => format!("(() => (t_in = {}) .== t_in)()", elems[0]),
+        21 => format!("(() => [t_in = {}, t_in])()", elems[0]),
+        22 => format!("((() => (t_in = 1) + 1)() + (() => (t_in = 2) + 1)())"),
+        23 => format!("[1, 2] via (q => (t_in = q) + 1)"),
+        24 => format!("{{a: (() => (t_in = {}))()}}.a", elems[0]),
+        25 => format!("(() => do {{\n t_in = {}\n return [t_in]\n}})()", elems[0]),
         0 | 1 | 2 => format!("sort({})", list),
         3 | 4 => format!("sort_by({}, e => e)", list),
         5 => format!("sort_by({}, e => typeof(e))", list),
@@ -237,7 +244,14 @@ fn part_directed(ctx: &Ctx, sink: &mut Sink) {
         let e = prog.remove(0);
         let base = {
             let s = Sess::new();
-            s.rout(&s.eval(&print_min(&assign("res", e.clone()))))
+            let first = s.rout(&s.eval(&print_min(&assign("res", e.clone()))));
+            // the same expression once more in the same session
+            let second = s.rout(&s.eval(&print_min(&assign("res_again", e.clone()))));
+            sink.count("directed_double_evaluations", 1);
+            if !first.agrees(&second) {
+                sink.viol("double-evaluation-differs directed", "evaluating an expression twice gives different results", json!({"expression": src, "first": first.show(), "second": second.show()}));
+            }
+            first
         };
         let mut paths = Vec::new();
         strict_paths(&e, &mut Vec::new(), &mut paths);
